@@ -758,10 +758,31 @@ func (fr *Frame) checkLoopBack(lp *Loop, cond Term, st *State) {
 	for i, acc := range lp.accs {
 		fr.obligation("inv-preserve", fmt.Sprintf("loop%d.auto-accumulator%d", lp.ordinal, i+1), cond, acc(st), "a slice only appended to keeps its own or a loop-allocated backing array")
 	}
-	for _, lf := range lp.frames {
-		fr.obligation("inv-preserve", fmt.Sprintf("loop%d.auto-frame %s", lp.ordinal, shortKey(lf.key)), cond, lf.f(fr.x.heapGet(st, lf.key)), "objects not written by the loop body are unchanged")
-		if n := len(fr.x.ctx.obls); n > 0 {
-			fr.x.ctx.obls[n-1].AutoFrame = fr.x.cur.fnName + "|" + lf.fkey
+	{
+		// the speculative frames of one back edge are decided together (split only when the conjunction fails)
+		var parts []framePart
+		var keys []string
+		var goals []Term
+		for _, lf := range lp.frames {
+			g := lf.f(fr.x.heapGet(st, lf.key))
+			if g.S == "true" {
+				continue
+			}
+			parts = append(parts, framePart{shortKey(lf.key), g})
+			keys = append(keys, fr.x.cur.fnName+"|"+lf.fkey)
+			goals = append(goals, g)
+		}
+		const chunk = 10
+		for lo := 0; lo < len(parts); lo += chunk {
+			hi := min(lo+chunk, len(parts))
+			before := len(fr.x.ctx.obls)
+			fr.obligation("inv-preserve", fmt.Sprintf("loop%d.auto-frames %s..", lp.ordinal, parts[lo].Label), cond, And(goals[lo:hi]...), "objects not written by the loop body are unchanged")
+			if n := len(fr.x.ctx.obls); n > before {
+				fr.x.ctx.obls[n-1].Parts = parts[lo:hi]
+				fr.x.ctx.obls[n-1].AutoKeys = keys[lo:hi]
+				fr.x.ctx.obls[n-1].AutoFrame = "batch"
+				fr.x.ctx.obls[n-1].quickOnly = true
+			}
 		}
 	}
 	if ai := fr.autoInv(lp, st); ai.S != "true" {
